@@ -111,6 +111,16 @@ func init() {
 				// applications whose commit handler sometimes reports an error after
 				// having applied the block (the node never sees the response)
 				cfg.PAppError = 0.05
+			} else if r.Bool(0.3) {
+				// persistent nodes killed between two store writes (e.g. between the
+				// two versions of one block: bare, then with the commit response and
+				// the signature) and restarted with bootstrap: what they report for a
+				// block after the restart - also once it has left the cache - is what
+				// they re-delivered
+				mixStores(cfg, r, 0.7)
+				cfg.PCrash = 0.04
+				cfg.PReFF = 0
+				cfg.FastSyncLate = false
 			}
 			return cfg
 		},
